@@ -17,10 +17,7 @@ import (
 
 func nwConfigs(thorough bool) []nwCfg {
 	var out []nwCfg
-	stacks := [][2]bool{{true, false}, {true, true}}
-	if thorough {
-		stacks = append(stacks, [2]bool{false, true})
-	}
+	stacks := [][2]bool{{true, false}, {true, true}, {false, true}}
 	for _, st := range stacks {
 		for _, feat := range [][3]bool{{false, false, false}, {true, false, false}, {false, true, true}, {false, true, false}} {
 			for _, per := range []int{2, 3} {
@@ -30,6 +27,9 @@ func nwConfigs(thorough bool) []nwCfg {
 							// quick: every value of every parameter occurs, not the full product
 							if (per == 2) != (ad == 3) {
 								continue
+							}
+							if !st[0] && (feat[0] || feat[1] || per != 2) {
+								continue // quick: IPv6-only nodes in the plain flavour only
 							}
 							if feat[0] && pool == [2]int{1, 2} || feat[1] && pool == [2]int{0, 1} {
 								continue
@@ -44,6 +44,9 @@ func nwConfigs(thorough bool) []nwCfg {
 			}
 		}
 	}
+	// three pods on an IPv6-only node with two addresses per interface: after two of them leave, one interface still
+	// serves a pod while the idle surplus is larger than that interface (the whole-interface release path of the trimmer)
+	out = append(out, nwCfg{V4: false, V6: true, PerAdapter: 2, Adapters: 3, MinPool: 0, MaxPool: 0, Pods: 3})
 	return out
 }
 
@@ -162,7 +165,7 @@ func TestVerifC08(t *testing.T) {
 		cfg := cfg
 		res := bfs.Run(bfs.Config{Name: cfg.String(), MaxDepth: depth, Deadline: dl,
 			// roots: the empty cluster and a node the controller has already initialised (its first interface settled)
-			Roots: [][]string{{}, {"reconcile", "reconcile"}},
+			Roots: c08Roots(cfg),
 			Build: func(x *vrt.Exec) bfs.World { return &c08World{newNW(cfg)} },
 			OnState: func(x *vrt.Exec, w bfs.World, hist []string) {
 				af := false
@@ -206,4 +209,12 @@ func (w *c08World) Enabled() []string {
 		}
 	}
 	return evs
+}
+
+func c08Roots(cfg nwCfg) [][]string {
+	roots := [][]string{{}, {"reconcile", "reconcile"}}
+	if cfg.Pods >= 3 {
+		roots = append(roots, []string{"podCreate:0", "podCreate:1", "podCreate:2", "reconcile", "reconcile", "reconcile"})
+	}
+	return roots
 }
